@@ -118,7 +118,7 @@ pub fn run(o: &Opts) {
     let mut sink = Sink::new(&o.out, o.shards, "Judge.C03", o.only.clone());
     let mut idx = 0u64;
     // corpus: the repaired F3 history (index 1 of the shared corpus) and F2 (index 0)
-    for k in 0..2 {
+    for k in 0..3 {
         let nonce = format!("c03_{}_c{k}", o.seed);
         let steps = corpus(&nonce).swap_remove(k);
         case(&mut sink, idx, "corpus", &steps, &nonce);
